@@ -1,5 +1,6 @@
 """C01 - ISO8583 round trip: decoding an encoded message returns every value unchanged."""
 import copy
+import decimal
 import datetime
 import re
 
@@ -61,6 +62,8 @@ def compare_out(config, msg, out, ctxt=''):
     for k, v in msg.items():
         want = v
         if k.startswith('DE'):
+            if config[k[2:]].get('field_python_type') in ('int', 'long') and isinstance(v, (float, decimal.Decimal)):
+                want = int(v)       # a whole number handed over as float / Decimal comes back as the equal int
             proc = config[k[2:]].get('field_processor')
             if proc == 'PAN':
                 want = refcodec.mask_pan(v)
@@ -117,7 +120,7 @@ def cases(draw, tier, generated):
         config = draw(gen_iso.configs())
     else:
         config = PACKAGED
-    msg = draw(gen_iso.messages(config, codec, exact=True, pds_mode='keys', pds_big=draw(st.sampled_from([True, False, False, False]))))
+    msg = draw(gen_iso.messages(config, codec, exact=True, pds_mode='keys', typed_as_str='numeric', pds_big=draw(st.sampled_from([True, False, False, False]))))
     return config, codec, hexbm, msg, generated
 
 
